@@ -379,4 +379,220 @@ theorem e2e_unknown_isolated_lines (m : Model) (o : Opts) (spec : Txt) (ho : o.m
   show k1.map (·.num) = k2.map (·.num)
   rw [e1, e2, key, key, hn]
 
+/-! ### 4. comment, label and directive lines are transparent — at the level of the file TEXT -/
+
+/-- a non-blank line that is not an instruction: `parse_line` accepts it and finds no mnemonic
+    (a comment-only line `# …`, a label line, a directive line) -/
+def IsNoise (n : Txt) : Prop := isBlank n = false ∧ ∃ f, parseLine n = .ok f ∧ f.mnemonic = none
+
+/-- where the old line `x` stands after a line has been inserted behind the first `pos` lines -/
+def shiftAt (pos x : Nat) : Nat := if x ≤ pos then x else x + 1
+
+theorem lineOfText_noise (m : Model) (num : Nat) (n : Txt) (hn : IsNoise n) : (lineOfText m num n).pl.isInstr = false := by
+  obtain ⟨_, f, hp, hm⟩ := hn
+  unfold lineOfText
+  simp only [hp, lineOf]
+  cases semOfStages m (stagesOf m f) <;> simp [PLine.isInstr, Glue.selOf, hm]
+
+/-- **parse level**: the file with the inserted line parses to the old lines — those in front unchanged,
+    those behind with their numbers moved by one — and one more line that is not an instruction -/
+theorem textLines_insert (m : Model) (xs ys : List Txt) (n : Txt) (hb : isBlank n = false) :
+    textLines m (xs ++ ys) =
+      (numbered 0 0 xs).map (fun p => lineOfText m p.1 p.2) ++
+        (numbered 0 xs.length ys).map (fun p => lineOfText m p.1 p.2) ∧
+    textLines m (xs ++ n :: ys) =
+      (numbered 0 0 xs).map (fun p => lineOfText m p.1 p.2) ++ lineOfText m (xs.length + 1) n ::
+        (numbered 0 xs.length ys).map (fun p => lineOfText m (p.1 + 1) p.2) := by
+  constructor
+  · simp [textLines, numbered_append]
+  · simp [textLines, numbered_insert xs ys n hb, List.map_map, Function.comp_def]
+
+theorem eraseNum_isInstr (p : PLine) : (eraseNum p).isInstr = p.isInstr := rfl
+
+/-- two lists of lines, element by element the same line up to the number, selected alike -/
+theorem same_instr_of_pointwise {α : Type} (nb : List α) (g1 g2 : α → PLine) (S1 S2 : Nat → Bool)
+    (h : ∀ p ∈ nb, eraseNum (g1 p) = eraseNum (g2 p) ∧ S1 (g1 p).num = S2 (g2 p).num) :
+    ((((nb.map g1).filter fun p => S1 p.num).filter (·.isInstr)).map eraseNum) =
+    ((((nb.map g2).filter fun p => S2 p.num).filter (·.isInstr)).map eraseNum) := by
+  induction nb with
+  | nil => rfl
+  | cons a nb ih =>
+    have ha := h a (by simp)
+    have ih' := ih (fun p hp => h p (by simp [hp]))
+    have hi : (g1 a).isInstr = (g2 a).isInstr := by
+      rw [← eraseNum_isInstr (g1 a), ← eraseNum_isInstr (g2 a), ha.1]
+    simp only [List.map_cons, List.filter_cons, ha.2]
+    cases S2 (g2 a).num
+    · simpa using ih'
+    · simp only [if_true, List.filter_cons, hi]
+      cases (g2 a).isInstr
+      · simpa using ih'
+      · simp only [if_true, List.map_cons, ha.1]
+        congr 1
+
+/-- **the selected kernels carry the same instructions**: if the selection of the second file selects the
+    old lines the selection of the first file selects (and the inserted line or not), the two kernels
+    have the same instruction lines in the same order, up to their numbers -/
+theorem kernels_same_instr (m : Model) (xs ys : List Txt) (n : Txt) (hn : IsNoise n) (S1 S2 : Nat → Bool)
+    (hS : ∀ x, S2 (shiftAt xs.length x) = S1 x) :
+    (((((textLines m (xs ++ ys)).map (·.pl)).filter fun p => S1 p.num).filter (·.isInstr)).map eraseNum) =
+    (((((textLines m (xs ++ n :: ys)).map (·.pl)).filter fun p => S2 p.num).filter (·.isInstr)).map eraseNum) := by
+  obtain ⟨e1, e2⟩ := textLines_insert m xs ys n hn.1
+  rw [e1, e2]
+  simp only [List.map_append, List.map_cons, List.filter_append, List.filter_cons, List.map_map]
+  have hN : (lineOfText m (xs.length + 1) n).pl.isInstr = false := lineOfText_noise m _ n hn
+  have front := same_instr_of_pointwise (numbered 0 0 xs) (fun p => (lineOfText m p.1 p.2).pl)
+    (fun p => (lineOfText m p.1 p.2).pl) S1 S2 (by
+      intro p hp
+      refine ⟨rfl, ?_⟩
+      have := numbered_hi 0 0 xs p hp
+      simp only [lineOfText_pl_num]
+      rw [← hS p.1, shiftAt, if_pos (by omega)])
+  have back := same_instr_of_pointwise (numbered 0 xs.length ys) (fun p => (lineOfText m p.1 p.2).pl)
+    (fun p => (lineOfText m (p.1 + 1) p.2).pl) S1 S2 (by
+      intro p hp
+      refine ⟨lineOfText_eraseNum m _ _ _, ?_⟩
+      have := numbered_lo 0 xs.length ys p hp
+      simp only [lineOfText_pl_num]
+      rw [← hS p.1, shiftAt, if_neg (by omega)])
+  simp only [Function.comp_def]
+  rw [front, back]
+  cases S2 (lineOfText m (xs.length + 1) n).pl.num <;> simp [hN]
+
+/-- **e2e_noise_transparent_text** (C11 at the level of the file TEXT; ∀ models, ∀ files, ∀ positions):
+    insert a comment-only line, a label line or a directive line `n` behind the first `|xs|` lines of a
+    file.  If the selection of the new file selects the old lines the selection of the old file selects —
+    whether or not it selects `n` itself (`S1`, `S2` name the selected line numbers; instances below: the
+    whole file, `--lines`) — the two analyses say the same about the instructions up to the renaming of
+    line numbers: there is one analysis `a₀` (of the position-numbered instruction lines) and
+    order-preserving `g1`, `g2` (instruction ordinal ↦ line number) with
+    `SameOnInstr … r1.analysis (a₀.rename g1)` and `SameOnInstr … r2.analysis (a₀.rename g2)`:
+    per-instruction rows, dependency edges with weights, LCD entries / dictionary / figure / marks, column
+    sums equal; the non-instruction rows are zeros; critical path total (≥ 0) and marks (> 0) equal. -/
+theorem e2e_noise_transparent_text (m : Model) (o1 o2 : Opts) (hfd : o1.flagDeps = o2.flagDeps)
+    (hfl : o1.floor = o2.floor) (xs ys : List Txt) (n : Txt) (hne : xs ++ ys ≠ [])
+    (hnl : ∀ t ∈ xs ++ n :: ys, 10 ∉ t) (hn : IsNoise n) (r1 r2 : Result)
+    (h1 : analyseX86 m o1 (joinLines (xs ++ ys)) = .ok r1)
+    (h2 : analyseX86 m o2 (joinLines (xs ++ n :: ys)) = .ok r2)
+    (S1 S2 : Nat → Bool)
+    (hk1 : r1.kernel = r1.parsed.filter fun p => S1 p.num)
+    (hk2 : r2.kernel = r2.parsed.filter fun p => S2 p.num)
+    (hS : ∀ x, S2 (shiftAt xs.length x) = S1 x) :
+    ∃ (a₀ : Analysis) (g1 g2 : Nat → Nat), Incr g1 ∧ Incr g2 ∧
+      (∀ j (h : j < (r1.kernel.filter (·.isInstr)).length), g1 j = ((r1.kernel.filter (·.isInstr))[j]).num) ∧
+      (∀ j (h : j < (r2.kernel.filter (·.isInstr)).length), g2 j = ((r2.kernel.filter (·.isInstr))[j]).num) ∧
+      a₀ = analyze (EndToEnd.cfgOf m o1) (Props.C11Pipeline.canon (r1.kernel.filter (·.isInstr))) ∧
+      SameOnInstr m.mm.ports.length r1.analysis (a₀.rename g1) ∧
+      SameOnInstr m.mm.ports.length r2.analysis (a₀.rename g2) := by
+  have hnl1 : ∀ t ∈ xs ++ ys, 10 ∉ t := by
+    intro t ht
+    rcases List.mem_append.mp ht with h | h
+    · exact hnl t (by simp [h])
+    · exact hnl t (by simp [h])
+  obtain ⟨k1, _, _, _, hr1⟩ := analyse_lines_ok_inv m o1 _ hne hnl1 r1 h1
+  obtain ⟨k2, _, _, _, hr2⟩ := analyse_lines_ok_inv m o2 _ (by simp) hnl r2 h2
+  have hc : EndToEnd.cfgOf m o2 = EndToEnd.cfgOf m o1 := by simp [EndToEnd.cfgOf, hfd, hfl]
+  have e1 : r1.kernel = k1 := by rw [hr1, resultOf]
+  have e2 : r2.kernel = k2 := by rw [hr2, resultOf]
+  have p1 : r1.parsed = (textLines m (xs ++ ys)).map (·.pl) := by rw [hr1, resultOf]
+  have p2 : r2.parsed = (textLines m (xs ++ n :: ys)).map (·.pl) := by rw [hr2, resultOf]
+  have a1 : r1.analysis = analyze (EndToEnd.cfgOf m o1) r1.kernel := by rw [e1, hr1, resultOf]
+  have a2 : r2.analysis = analyze (EndToEnd.cfgOf m o1) r2.kernel := by rw [e2, hr2, resultOf, hc]
+  have inc1 : Increasing r1.kernel := by
+    rw [hk1, p1]; exact (textLines_increasing m _).sublist List.filter_sublist
+  have inc2 : Increasing r2.kernel := by
+    rw [hk2, p2]; exact (textLines_increasing m _).sublist List.filter_sublist
+  have hsame : (r1.kernel.filter (·.isInstr)).map eraseNum = (r2.kernel.filter (·.isInstr)).map eraseNum := by
+    rw [hk1, hk2, p1, p2]
+    exact kernels_same_instr m xs ys n hn S1 S2 hS
+  have := Props.C11Pipeline.noise_transparent (EndToEnd.cfgOf m o1) r1.kernel r2.kernel inc1 inc2 hsame
+  rw [← a1, ← a2] at this
+  exact this
+
+/-- the numbers that are not line numbers are equal in the two analyses -/
+theorem e2e_noise_transparent_values (m : Model) (o1 o2 : Opts) (hfd : o1.flagDeps = o2.flagDeps)
+    (hfl : o1.floor = o2.floor) (xs ys : List Txt) (n : Txt) (hne : xs ++ ys ≠ [])
+    (hnl : ∀ t ∈ xs ++ n :: ys, 10 ∉ t) (hn : IsNoise n) (r1 r2 : Result)
+    (h1 : analyseX86 m o1 (joinLines (xs ++ ys)) = .ok r1)
+    (h2 : analyseX86 m o2 (joinLines (xs ++ n :: ys)) = .ok r2)
+    (S1 S2 : Nat → Bool)
+    (hk1 : r1.kernel = r1.parsed.filter fun p => S1 p.num)
+    (hk2 : r2.kernel = r2.parsed.filter fun p => S2 p.num)
+    (hS : ∀ x, S2 (shiftAt xs.length x) = S1 x) :
+    r1.analysis.lcdFigure = r2.analysis.lcdFigure ∧ r1.analysis.colSums = r2.analysis.colSums ∧
+    r1.analysis.edges.map (·.w) = r2.analysis.edges.map (·.w) ∧
+    r1.analysis.lcd.map (fun e => (e.lats, e.latency)) = r2.analysis.lcd.map (fun e => (e.lats, e.latency)) := by
+  have hnl1 : ∀ t ∈ xs ++ ys, 10 ∉ t := by
+    intro t ht
+    rcases List.mem_append.mp ht with h | h
+    · exact hnl t (by simp [h])
+    · exact hnl t (by simp [h])
+  obtain ⟨k1, _, _, _, hr1⟩ := analyse_lines_ok_inv m o1 _ hne hnl1 r1 h1
+  obtain ⟨k2, _, _, _, hr2⟩ := analyse_lines_ok_inv m o2 _ (by simp) hnl r2 h2
+  have hc : EndToEnd.cfgOf m o2 = EndToEnd.cfgOf m o1 := by simp [EndToEnd.cfgOf, hfd, hfl]
+  have e1 : r1.kernel = k1 := by rw [hr1, resultOf]
+  have e2 : r2.kernel = k2 := by rw [hr2, resultOf]
+  have p1 : r1.parsed = (textLines m (xs ++ ys)).map (·.pl) := by rw [hr1, resultOf]
+  have p2 : r2.parsed = (textLines m (xs ++ n :: ys)).map (·.pl) := by rw [hr2, resultOf]
+  have a1 : r1.analysis = analyze (EndToEnd.cfgOf m o1) r1.kernel := by rw [e1, hr1, resultOf]
+  have a2 : r2.analysis = analyze (EndToEnd.cfgOf m o1) r2.kernel := by rw [e2, hr2, resultOf, hc]
+  have inc1 : Increasing r1.kernel := by
+    rw [hk1, p1]; exact (textLines_increasing m _).sublist List.filter_sublist
+  have inc2 : Increasing r2.kernel := by
+    rw [hk2, p2]; exact (textLines_increasing m _).sublist List.filter_sublist
+  have hsame : (r1.kernel.filter (·.isInstr)).map eraseNum = (r2.kernel.filter (·.isInstr)).map eraseNum := by
+    rw [hk1, hk2, p1, p2]
+    exact kernels_same_instr m xs ys n hn S1 S2 hS
+  have v := Props.C11Pipeline.noise_transparent_values (EndToEnd.cfgOf m o1) r1.kernel r2.kernel inc1 inc2 hsame
+  rw [← a1, ← a2] at v
+  exact ⟨v.1, v.2.1, v.2.2.1, v.2.2.2.1⟩
+
+/-- instance: the whole file is the kernel in both runs (no marker, no `--lines`) -/
+theorem e2e_noise_transparent_whole_file (m : Model) (o : Opts) (xs ys : List Txt) (n : Txt) (hne : xs ++ ys ≠ [])
+    (hnl : ∀ t ∈ xs ++ n :: ys, 10 ∉ t) (hn : IsNoise n) (r1 r2 : Result)
+    (h1 : analyseX86 m o (joinLines (xs ++ ys)) = .ok r1)
+    (h2 : analyseX86 m o (joinLines (xs ++ n :: ys)) = .ok r2)
+    (hk1 : r1.kernel = r1.parsed) (hk2 : r2.kernel = r2.parsed) :
+    ∃ (a₀ : Analysis) (g1 g2 : Nat → Nat), Incr g1 ∧ Incr g2 ∧
+      SameOnInstr m.mm.ports.length r1.analysis (a₀.rename g1) ∧
+      SameOnInstr m.mm.ports.length r2.analysis (a₀.rename g2) := by
+  obtain ⟨a₀, g1, g2, i1, i2, _, _, _, s1, s2⟩ :=
+    e2e_noise_transparent_text m o o rfl rfl xs ys n hne hnl hn r1 r2 h1 h2 (fun _ => true) (fun _ => true)
+      (by simp [hk1]) (by simp [hk2]) (fun _ => rfl)
+  exact ⟨a₀, g1, g2, i1, i2, s1, s2⟩
+
+/-- instance: `--lines` in both runs, the second specification naming the moved numbers -/
+theorem e2e_noise_transparent_lines (m : Model) (o1 o2 : Opts) (s1 s2 : Txt) (R1 R2 : List Int)
+    (hm1 : o1.mode = .lines s1) (hm2 : o2.mode = .lines s2)
+    (hR1 : Marker.getLineRange s1 = some R1) (hR2 : Marker.getLineRange s2 = some R2)
+    (hfd : o1.flagDeps = o2.flagDeps) (hfl : o1.floor = o2.floor)
+    (xs ys : List Txt) (n : Txt) (hne : xs ++ ys ≠ [])
+    (hnl : ∀ t ∈ xs ++ n :: ys, 10 ∉ t) (hn : IsNoise n)
+    (hS : ∀ x : Nat, R2.contains ((shiftAt xs.length x : Nat) : Int) = R1.contains (x : Int))
+    (r1 r2 : Result)
+    (h1 : analyseX86 m o1 (joinLines (xs ++ ys)) = .ok r1)
+    (h2 : analyseX86 m o2 (joinLines (xs ++ n :: ys)) = .ok r2) :
+    ∃ (a₀ : Analysis) (g1 g2 : Nat → Nat), Incr g1 ∧ Incr g2 ∧
+      SameOnInstr m.mm.ports.length r1.analysis (a₀.rename g1) ∧
+      SameOnInstr m.mm.ports.length r2.analysis (a₀.rename g2) := by
+  have hnl1 : ∀ t ∈ xs ++ ys, 10 ∉ t := by
+    intro t ht
+    rcases List.mem_append.mp ht with h | h
+    · exact hnl t (by simp [h])
+    · exact hnl t (by simp [h])
+  obtain ⟨k1, hs1, _, _, hr1⟩ := analyse_lines_ok_inv m o1 _ hne hnl1 r1 h1
+  obtain ⟨k2, hs2, _, _, hr2⟩ := analyse_lines_ok_inv m o2 _ (by simp) hnl r2 h2
+  rw [hm1] at hs1
+  rw [hm2] at hs2
+  obtain ⟨ra, hra, e1⟩ := select_lines_eq s1 _ _ hs1
+  obtain ⟨rb, hrb, e2⟩ := select_lines_eq s2 _ _ hs2
+  rw [hR1] at hra; cases hra
+  rw [hR2] at hrb; cases hrb
+  have hk1 : r1.kernel = r1.parsed.filter fun p => R1.contains (p.num : Int) := by rw [hr1, resultOf]; exact e1
+  have hk2 : r2.kernel = r2.parsed.filter fun p => R2.contains (p.num : Int) := by rw [hr2, resultOf]; exact e2
+  obtain ⟨a₀, g1, g2, i1, i2, _, _, _, q1, q2⟩ :=
+    e2e_noise_transparent_text m o1 o2 hfd hfl xs ys n hne hnl hn r1 r2 h1 h2
+      (fun x => R1.contains (x : Int)) (fun x => R2.contains (x : Int)) hk1 hk2 hS
+  exact ⟨a₀, g1, g2, i1, i2, q1, q2⟩
+
 end OsacaVerif.Props.EndToEnd
